@@ -1366,6 +1366,56 @@ def rule_member_refs(rep: Report, cu: CUnit) -> None:
             raise AnalysisError(f'C11.MEMBER-REF: ->{f} is touched by {n_fn} functions only (a setter and {dealloc} expected)')
 
 
+def rule_init_atomic(rep: Report, cu: CUnit) -> None:
+    """a refused __init__ of a live object must leave it as it was: the counters that describe the storage are only reset further down, after
+    the arguments were accepted - a release that comes before a failing return leaves counts and caches that describe freed storage"""
+    rep.rule('C11.INIT-ATOMIC', 'in the tp_init function no path that returns failure (-1) has released storage of the object before it: the '
+             'helper that frees the allocations (and every free / Py_CLEAR / Py_DECREF of a member) is reached only after the last refusal of the '
+             'arguments - otherwise a refused re-initialisation leaves slot counts, the page cache and the segment count describing freed memory', 1)
+    slot_src = ' '.join(cu.src_of(v) for k_, v in cu.vars.items() if 'slots' in k_)
+    md = re.search(r'Py_tp_init\s*,\s*(?:\(\s*void\s*\*\s*\)\s*)?(\w+)', slot_src)
+    if not md or md.group(1) not in cu.funcs:
+        raise AnalysisError('C11.INIT-ATOMIC: the Py_tp_init slot of the type was not found')
+    init = md.group(1)
+    # unit functions that release storage of the object (directly)
+    releasers = {f for f in cu.funcs if f != init and any(c.get('kind') == 'CallExpr' and callee(c) == 'free' for c in walk(cu.body(f)))}
+    g = build_c_cfg(cu, init)
+    from collections import deque
+    IN: Dict[int, Set[bool]] = {g.entry: {False}}
+    work = deque([g.entry])
+    bad: List[str] = []
+    n_fail = 0
+    while work:
+        nid = work.popleft()
+        node = g.nodes[nid]
+        for released in list(IN[nid]):
+            out = released
+            a = node.ast
+            if isinstance(a, dict) and node.kind in ('stmt', 'cond', 'return'):
+                for c in walk(a):
+                    if c.get('kind') == 'CallExpr' and (callee(c) in releasers or callee(c) == 'free' or ('DECREF' in callee(c).upper() and any(
+                            m_.get('kind') == 'MemberExpr' for x_ in call_args(c) for m_ in walk(x_)))):
+                        out = True
+                if cu._raw_src(a).strip() == 'Py_CLEAR':
+                    out = True
+                if node.kind == 'return' and a.get('inner'):
+                    v = int_value(strip(a['inner'][0]))
+                    neg = cu.src_of(a['inner'][0]).replace(' ', '') in ('-1', '(-1)') or (v is not None and v < 0)
+                    if neg:
+                        n_fail += 1
+                        if released:
+                            bad.append(f'`return -1` at {cu.site(a, init)} is reached after storage of the object was released')
+            for m, _l in g.succ[nid]:
+                IN.setdefault(m, set())
+                if out not in IN[m]:
+                    IN[m].add(out)
+                    work.append(m)
+    if n_fail < 1:
+        raise AnalysisError(f'C11.INIT-ATOMIC: {init} has no failing return (the argument refusals were expected)')
+    rep.check(not bad, 'C11.INIT-ATOMIC', f'{init}:refusals before releases', bad[0] if bad else f'{n_fail} failing returns, none after a release '
+              f'(releasing helpers: {sorted(releasers)})', cu.site(cu.func(init), init), expected='validate the arguments first, release afterwards')
+
+
 def rule_errors(rep: Report, cu: CUnit) -> None:
     rep.rule('C11.ERRORS', 'every `return NULL` / `return -1` of a function exposed to Python is reached only after a call that '
              'sets the Python error indicator (PyErr_*, a failing CPython API, or a helper that sets it)', 10)
@@ -1553,6 +1603,7 @@ def check(rep: Report, repo: Optional[Repo] = None) -> None:
     repo = repo or Repo()
     cu = CUnit(repo)
     rule_member_refs(rep, cu)          # reads the reference macros as clang expands them: before any local is read through
+    rule_init_atomic(rep, cu)
     # outside the run loops (which have their own structural analyses and keyed findings) a local that merely names an expression
     # (`Slot* const slots = self->slots`, `index_mask = count - 1`, `kept = self->list`) reads as that expression
     n_inl = sum(cu.inline_pure_locals(f) for f in cu.funcs if f not in M_ROLES_C and not any(
